@@ -9,6 +9,7 @@
 //   N                         null
 //   T <tree>                  nested JSON value, prefix notation (see parseTree), built through the API and through text
 //   H <op>.<op>...            history of set/get/use/free operations (see runHistory)
+//   P <kind> <hex text>       a whole document given to occaJsonParse (bare scalars and null included)
 //   W                         warm-up: builds the echo kernels (fills the cache before the parallel run)
 // Result lines:  F <signature>\t<detail>   violation of an oracle clause
 //                R <text>                  outcome summary (for distinct-outcome counting)
@@ -29,8 +30,10 @@
 
 static std::string CUR;     // item text, for details
 static int NFAIL = 0;
+static bool QUIET = false;  // repeated executions of an item (leak measurement) print nothing
 static void fail(const std::string &sig, const std::string &detail) {
   ++NFAIL;
+  if (QUIET) return;
   std::string d = detail;
   for (char &ch : d) if (ch == '\n' || ch == '\t') ch = ' ';
   printf("F %s\t%s\n", sig.c_str(), d.c_str());
@@ -49,7 +52,7 @@ struct Ctor {
   const char *name; Kind kind; int width; const int *tag; const char *kernel;
 };
 static const Ctor CTORS[] = {
-  {"Bool",   KBOOL,   1, &OCCA_BOOL,   NULL},
+  {"Bool",   KBOOL,   1, &OCCA_BOOL,   "echo_bool"},
   {"Int8",   KSINT,   1, &OCCA_INT8,   "echo_char"},
   {"UInt8",  KUINT,   1, &OCCA_UINT8,  "echo_uchar"},
   {"Int16",  KSINT,   2, &OCCA_INT16,  "echo_short"},
@@ -198,7 +201,7 @@ static const char *KERNEL_SRC =
   "#define ECHO(NAME, T) @kernel void NAME(const T v, T *out) { for (int i = 0; i < 1; ++i; @tile(1, @outer, @inner)) { out[i] = v; } }\n"
   "ECHO(echo_char, char)\nECHO(echo_uchar, unsigned char)\nECHO(echo_short, short)\nECHO(echo_ushort, unsigned short)\n"
   "ECHO(echo_int, int)\nECHO(echo_uint, unsigned int)\nECHO(echo_long, long)\nECHO(echo_ulong, unsigned long)\n"
-  "ECHO(echo_float, float)\nECHO(echo_double, double)\n"
+  "ECHO(echo_float, float)\nECHO(echo_double, double)\nECHO(echo_bool, bool)\n"
   "@kernel void echo_null(const int *p, int *out) { for (int i = 0; i < 1; ++i; @tile(1, @outer, @inner)) { out[i] = (p == 0) ? 1 : 2; } }\n";
 
 static occaDevice DEV;
@@ -358,9 +361,9 @@ static void runV(int c, uint64_t bits) {
     }
   } catch (occa::exception &e) {
     kout = "rejected";
-    if (C.kind != KBOOL) fail("kernelarg:exception:" + tn, CUR + " :: " + e.message);
+    fail("kernelarg:exception:" + tn, CUR + " :: " + e.message);
   }
-  printf("R V %s %d kernel=%s\n", C.name, NFAIL, kout.c_str());
+  if (!QUIET) printf("R V %s %d kernel=%s\n", C.name, NFAIL, kout.c_str());
 }
 
 //---[ strings / null ]------------------------------------------------------------------------------------------
@@ -407,7 +410,7 @@ static void runS(const std::string &s) {
   if (in.type == OCCA_JSON && occaJsonIsArray(in) && occaJsonArraySize(in) == 2) checkStringHandle(occaJsonArrayGet(in, 0), s, "array-in-object>get");
   else fail("predicate:nested-array:string", CUR + " :: nested array lost");
   occaFree(&obj);
-  printf("R S len=%zu %d\n", s.size(), NFAIL);
+  if (!QUIET) printf("R S len=%zu %d\n", s.size(), NFAIL);
 }
 
 static void runN() {
@@ -440,7 +443,7 @@ static void runN() {
   } catch (occa::exception &e) {
     fail("kernelarg:exception:null", CUR + " :: " + e.message);
   }
-  printf("R N %d\n", NFAIL);
+  if (!QUIET) printf("R N %d\n", NFAIL);
 }
 
 //---[ trees ]---------------------------------------------------------------------------------------------------
@@ -581,7 +584,7 @@ static void runT(const std::string &text) {
   // route 1: built through the API
   bool owned;
   occaType v = buildTree(n, owned);
-  walk(v, n, "built", "$");
+  if (owned) walk(v, n, "built", "$");          // a scalar occaType is not a json handle: it is judged after it was stored
   // route 2: stored under a key of another object / pushed into another array, read back
   occaJson outer = occaCreateJson();
   occaJsonObjectSet(outer, "k", v);
@@ -602,7 +605,7 @@ static void runT(const std::string &text) {
     walk(p, n, "parsed", "$");
     occaFree(&p);
   }
-  printf("R T %c%zu %d\n", n.kind, n.kids.size(), NFAIL);
+  if (!QUIET) printf("R T %c%zu %d\n", n.kind, n.kids.size(), NFAIL);
 }
 
 //---[ histories ]-----------------------------------------------------------------------------------------------
@@ -736,8 +739,54 @@ static void runH(const std::string &hist) {
   for (int k = 0; k < 3; ++k) outcome += SS(slots[k].st);
   occaFree(&root);
   occaFree(&arr);
-  printf("R H %s m%zu a%zu %d\n", outcome.c_str(), model.size(), amodel.size(), NFAIL);
+  if (!QUIET) printf("R H %s m%zu a%zu %d\n", outcome.c_str(), model.size(), amodel.size(), NFAIL);
 }
+
+//---[ parsed documents ]---------------------------------------------------------------------------------------
+// P <kind> <hex text>: occaJsonParse of a document that is a bare scalar / null / container; kind = z b i d s o a
+static void runP(char kind, const std::string &text) {
+  occaJson p = occaJsonParse(text.c_str());
+  const std::string where = std::string("parsed-document:") + kind;
+  if (kind == 'z') {
+    if (p.type != OCCA_NULL || occaIsUndefined(p)) fail("type-tag:" + where, SS(CUR << " :: parsing [" << text << "] gave type " << tagName(p.type)));
+  } else if (p.type != OCCA_JSON) {
+    fail("type-tag:" + where, SS(CUR << " :: parsing [" << text << "] gave type " << tagName(p.type)));
+  } else {
+    const bool isB = occaJsonIsBoolean(p), isN = occaJsonIsNumber(p), isS = occaJsonIsString(p), isA = occaJsonIsArray(p), isO = occaJsonIsObject(p);
+    const bool ok = (kind == 'b') ? (isB && !isS && !isA && !isO)
+                  : (kind == 'i' || kind == 'd') ? (isN && !isB && !isS && !isA && !isO)
+                  : (kind == 's') ? (isS && !isB && !isN && !isA && !isO)
+                  : (kind == 'o') ? (isO && !isB && !isN && !isS && !isA)
+                  : (isA && !isB && !isN && !isS && !isO);
+    if (!ok) fail("predicate:" + where, SS(CUR << " :: parsing [" << text << "] bool/number/string/array/object=" << isB << isN << isS << isA << isO));
+  }
+  occaFree(&p);
+  if (!occaIsUndefined(p)) fail("free:owned-still-defined:" + where, CUR + " :: still defined after occaFree");
+  if (!QUIET) printf("R P %c %d\n", kind, NFAIL);
+}
+
+static bool runItem(const std::string &it) {
+  if (it[0] == 'V') {
+    int c; char hex[64];
+    if (sscanf(it.c_str(), "V %d %63s", &c, hex) != 2 || c < 0 || c >= NCTORS) return false;
+    runV(c, strtoull(hex, NULL, 16));
+  } else if (it[0] == 'S') {
+    runS(unhex(it.substr(2)));
+  } else if (it[0] == 'N') {
+    runN();
+  } else if (it[0] == 'T') {
+    runT(it.substr(2));
+  } else if (it[0] == 'P') {
+    runP(it[2], unhex(it.substr(4)));
+  } else if (it[0] == 'H') {
+    runH(it.size() > 2 ? it.substr(2) : "");
+  } else {
+    return false;
+  }
+  return true;
+}
+
+extern "C" size_t __sanitizer_get_current_allocated_bytes();
 
 //---[ main ]----------------------------------------------------------------------------------------------------
 int main(int argc, char **argv) {
@@ -752,26 +801,30 @@ int main(int argc, char **argv) {
     NFAIL = 0;
     const std::string &it = items[i];
     try {
-      if (it[0] == 'V') {
-        int c; char hex[64];
-        if (sscanf(it.c_str(), "V %d %63s", &c, hex) != 2 || c < 0 || c >= NCTORS) printf("HARNESS bad item\n");
-        else runV(c, strtoull(hex, NULL, 16));
-      } else if (it[0] == 'S') {
-        runS(unhex(it.substr(2)));
-      } else if (it[0] == 'N') {
-        runN();
-      } else if (it[0] == 'T') {
-        runT(it.substr(2));
-      } else if (it[0] == 'H') {
-        runH(it.size() > 2 ? it.substr(2) : "");
-      } else if (it[0] == 'W') {
-        const char *names[] = {"echo_char", "echo_uchar", "echo_short", "echo_ushort", "echo_int", "echo_uint", "echo_long", "echo_ulong", "echo_float", "echo_double", "echo_null"};
+      if (it[0] == 'W') {
+        const char *names[] = {"echo_bool", "echo_char", "echo_uchar", "echo_short", "echo_ushort", "echo_int", "echo_uint", "echo_long", "echo_ulong", "echo_float", "echo_double", "echo_null"};
         for (const char *n : names) kernelFor(n);
         printf("R W built\n");
-      } else {
+      } else if (!runItem(it)) {
         printf("HARNESS bad item\n");
+      } else if (NFAIL == 0) {
+        // leak oracle: everything an item creates is released by its occaFree calls.  The item is executed again (to
+        // fill lazily initialised state) and a third time between two readings of ASan's live-byte counter
+        QUIET = true;
+        runItem(it);
+        const size_t before = __sanitizer_get_current_allocated_bytes();
+        runItem(it);
+        const size_t after = __sanitizer_get_current_allocated_bytes();
+        QUIET = false;
+        NFAIL = 0;
+        if (after != before) {
+          const char *what = it[0] == 'V' ? "scalar" : it[0] == 'S' ? "string" : it[0] == 'N' ? "null" : it[0] == 'T' ? "tree" : it[0] == 'P' ? "parsed-document" : "history";
+          fail(std::string("leak:") + what + (it[0] == 'P' ? std::string(":") + it[2] : std::string()),
+               SS(CUR << " :: live heap bytes " << before << " -> " << after << " across one more execution of the item (everything was passed to occaFree)"));
+        }
       }
     } catch (occa::exception &e) {
+      QUIET = false;
       fail(std::string("exception:") + it[0], CUR + " :: occa::exception " + e.message);
     }
     printf("END %zu\n", i);
